@@ -73,6 +73,13 @@ func assignTo(dec *Decoder, o interface{}, p interface{}) {
 }
 
 func ptrCopy(dec *Decoder, o interface{}, p interface{}) {
+	if v := reflect.ValueOf(o); v.Kind() == reflect.Map {
+		// a map value is its own header pointer: point at a variable holding it
+		pv := reflect.New(v.Type())
+		pv.Elem().Set(v)
+		reflect.ValueOf(p).Elem().Set(pv)
+		return
+	}
 	*(*unsafe.Pointer)(reflect2.PtrOf(p)) = reflect2.PtrOf(o)
 }
 
@@ -81,6 +88,11 @@ func sliceCopy(dec *Decoder, o interface{}, p interface{}) {
 }
 
 func mapCopy(dec *Decoder, o interface{}, p interface{}) {
+	if reflect.TypeOf(o).Kind() == reflect.Map {
+		// the reference list holds the map itself (readObjectAsMap), not a pointer to a map variable
+		reflect.ValueOf(p).Elem().Set(reflect.ValueOf(o))
+		return
+	}
 	reflect2.TypeOf(p).UnsafeSet(reflect2.PtrOf(p), reflect2.PtrOf(o))
 }
 
